@@ -65,25 +65,41 @@ class Gen:
         e = self.atom(vs, d)
         return self.rng.choice([f"0.9 * sin({e})", f"{e} / (1.5 + abs({e}))"])
 
-    def cond(self, d=1):
-        """comparisons of a state with a constant only (degenerate conditions are C01's business)"""
+    def cond(self, d=1, used=None):
+        """comparisons of a state with a constant, combined by and/or/not only over *different* states, so that no
+        condition is tautological, contradictory or redundant (degenerate conditions are C01's business)"""
         rng = self.rng
-        s, val = rng.choice(self.state_vals)
+        used = [] if used is None else used
+        free = [sv for sv in self.state_vals if sv[0] not in used] or None
+        if free is None:
+            return None
+        s, val = rng.choice(free)
+        used.append(s)
         c = rng.choice([val, val, self.num(unit=False), f"{float(val) * 1.02 + 0.003:.6g}", f"{float(val) * 0.97 - 0.002:.6g}"])
         if self.units and rng.random() < 0.3 and "[" not in c:
             c += " [mV]"
         r = f"{s} {rng.choice(['<', '>', '<=', '>=', '<', '>', '==', '!='])} {c}"
-        if d > 0:
-            k = rng.random()
+        k = rng.random()
+        if d > 0 and k < 0.5:
             if k < 0.15:
-                return f"not ({self.cond(d - 1)})"
+                return f"not ({r})"
+            r2 = self.cond(d - 1 if k < 0.45 else 0, used)
+            if r2 is None:
+                return r
             if k < 0.3:
-                return f"{r} and {self.cond(d - 1)}"
+                return f"{r} and {r2}"
             if k < 0.45:
-                return f"{r} or {self.cond(d - 1)}"
-            if k < 0.5:
-                return f"({r} or {self.cond(0)}) and {self.cond(0)}"
+                return f"{r} or {r2}"
+            r3 = self.cond(0, used)
+            return f"({r} or {r2}) and {r3}" if r3 else f"not ({r} and {r2})"
         return r
+
+    def pw(self, E):
+        """piecewise with two conditions on different states (or a plain if when there is only one state)"""
+        used = []
+        c1 = self.cond(0, used)
+        c2 = self.cond(0, used)
+        return f"piecewise({c1}, {E()}, {c2}, {E()}, {E()})" if c2 else f"if({c1}, {E()}, {E()})"
 
     def expr(self, vs, d):
         rng = self.rng
@@ -105,7 +121,7 @@ class Gen:
             (0.5, lambda: f"floor({rng.choice(['3.7', '1.3', '0.9'])} * {A()})"), (0.5, lambda: f"ceil({rng.choice(['3.7', '1.3', '0.9'])} * {A()})"),
             (0.4, lambda: f"{A()} // {rng.choice(['0.3', '2', '1.7', '-0.6'])}"), (0.4, lambda: f"{A()} % {rng.choice(['0.3', '2', '1.7', '-0.6'])}"),
             (1.2, lambda: f"if({self.cond()}, {E()}, {E()})"),
-            (0.7, lambda: f"piecewise({self.cond()}, {E()}, {self.cond()}, {E()}, {E()})"),
+            (0.7, lambda: self.pw(E)),
             (0.3, lambda: f"if({self.cond()}, {E()}, if({self.cond()}, {E()}, {E()}))"),
         ]
         r = rng.uniform(0, sum(w for w, _ in opts))
